@@ -14,10 +14,11 @@ EXTENDS Config, Json
 Thorough == "MODE" \in DOMAIN IOEnv /\ IOEnv["MODE"] = "thorough"
 
 \* ------------------------------------------------------------------------------------------ samples
-P1 == "**/a.lua"
-P2 == "src/sub/*.lua"
-K1 == "**/b.lua"
-K2 == "src/a.lua"
+\* apply: {a} / {a, sub/b}; skip: {sub/b} / {sub/b, a}: six distinct selections over the three probe files
+P1 == "src/a.lua"
+P2 == "**/b.lua"
+K1 == "src/*/b.lua"
+K2 == "*/a.lua"
 ApplyForms == {<<>>, <<E("apply_to_files", S(P1))>>, <<E("apply_to_files", L(<<P1, P2>>))>>}
                \cup (IF Thorough THEN {<<E("apply_to_files", L(<<P1>>))>>, <<E("apply_to_files", L(<<>>))>>} ELSE {})
 SkipForms  == {<<>>, <<E("skip_files", S(K1))>>, <<E("skip_files", L(<<K1, K2>>))>>}
@@ -208,6 +209,8 @@ TopCorruptCases ==
   \cup {Case(TopT(TopBase(g), BundleBase), "corrupt", "top", "invalid-value", "generator", "generator") : g \in {S("nope"), O(<<"name", "str", "nope">>)}}
   \cup {Case(TopT(TopBase(g), BundleBase), "corrupt", "top", "invalid-value", "generator", "generator.column_span") :
           g \in {O(<<"name", "str", "dense", "column_span", "num", "-1">>), O(<<"name", "str", "readable", "column_span", "num", "1.5">>)}}
+  \cup {Case(TopT(TopBase(g), BundleBase), "corrupt", "top", "unknown-key", "generator", "generator.column_span") :
+          g \in {O(<<"name", "str", "retain_lines", "column_span", "num", "20">>), O(<<"column_span", "num", "20", "name", "str", "retain-lines">>)}}
   \cup {Case(TopT(TopBase(S("dense")), x.es), "corrupt", "top", x.ck, "bundle", x.key) :
           x \in Generic(BundleBase, "bundle") \cup Drop(BundleBase, {"require_mode"}) \cup Inner(BundleBase, 1, "mode")
                 \cup SetValue(BundleBase, "excludes", L(<<"@pkg/**", "[">>), "invalid-glob")
@@ -236,14 +239,15 @@ StrictTrigger(x) == Trigger_F_C19_e(x) \/ Trigger_F_C19_f(x)
 Enrich(x) ==
   LET p == Parse(x.t) IN LET s == Ser(p.cfg) IN LET q == Parse(s) IN LET b == Behaves(p.cfg) IN
   [case |-> x, ok |-> p.ok, ser |-> s, beh |-> b, rt |-> q.ok /\ Behaves(q.cfg) = b,
-   trig |-> SerTrigger(x.t), strig |-> StrictTrigger(x), usite |-> UnreadableSite(s)]
+   trig |-> SerTrigger(x.t), strig |-> StrictTrigger(x), usite |-> IF ~q.ok THEN UnreadableSite(s) ELSE BehDiff(b, Behaves(q.cfg)).site]
 Enriched == {Enrich(x) : x \in Cases}
 Tab == {y \in Enriched : y.case.kind = "valid" /\ y.case.fam # "pair"}
-\* the table split by family, materialised once (`@@` forces the function to be evaluated eagerly)
-FamTab == [f \in {y.case.fam : y \in Tab} |-> {z : z \in {y \in Tab : y.case.fam = f}}] @@ <<>>
+\* one extra state per family: SerInjective is checked there over all pairs of the family
+EmptyT == [top |-> <<>>, rules |-> <<>>, bundle |-> <<>>]
+FamilyStates == {[Enrich(Case(EmptyT, "family", f, "", "", "")) EXCEPT !.ok = FALSE] : f \in {y.case.fam : y \in Tab}}
 
 VARIABLE c
-Init == c \in Enriched
+Init == c \in Enriched \cup FamilyStates
 Next == UNCHANGED c
 Kind == c.case.kind
 Fam == c.case.fam
@@ -254,14 +258,17 @@ ModelSane == Kind = "valid" => c.ok
 \* the theorems, outside the named triggers (a violation here is a defect of the DESIGN that no open finding explains)
 RoundTripHolds == (Kind = "valid" /\ ~c.trig) => c.rt
 StrictHolds    == (Kind = "corrupt" /\ ~c.strig) => ~c.ok
-InjectiveHolds == (Kind = "valid" /\ Fam # "pair" /\ ~c.trig) => \A d \in FamTab[Fam] : (~d.trig /\ d.ser = c.ser) => d.beh = c.beh
+InjectiveHolds == Kind = "family" =>
+                    LET F == {z : z \in {y \in Tab : y.case.fam = Fam}} IN
+                    \A x \in F : ~x.trig => \A y \in F : (~y.trig /\ x.ser = y.ser) => x.beh = y.beh
 
 \* ... and under them: reported and counted, exploration continues
 Sig == [fam |-> Fam, site |-> c.case.site, ck |-> c.case.ck, key |-> c.case.key]
 RoundTripReport == (Kind = "valid" /\ c.trig /\ ~c.rt) => PrintT("DESIGN-ROUNDTRIP " \o ToJson([fam |-> Fam, site |-> c.usite]))
 StrictReport == (Kind = "corrupt" /\ c.strig /\ c.ok) => PrintT("DESIGN-STRICT " \o ToJson(Sig))
-InjectiveReport == (Kind = "valid" /\ Fam # "pair") =>
-                    ((\E d \in FamTab[Fam] : (d.trig \/ c.trig) /\ d.ser = c.ser /\ d.beh # c.beh) => PrintT("DESIGN-INJECTIVE " \o ToJson([fam |-> Fam])))
+InjectiveReport == Kind = "family" =>
+                    LET F == {z : z \in {y \in Tab : y.case.fam = Fam}} IN
+                    \A x \in F : (\E y \in F : (x.trig \/ y.trig) /\ x.ser = y.ser /\ x.beh # y.beh) => PrintT("DESIGN-INJECTIVE " \o ToJson([fam |-> Fam]))
 
-EmitCase == PrintT("CASE " \o ToJson([t |-> c.case.t, kind |-> Kind, fam |-> Fam, ck |-> c.case.ck, site |-> c.case.site, key |-> c.case.key, expect |-> c.ok]))
+EmitCase == Kind # "family" => PrintT("CASE " \o ToJson([t |-> c.case.t, kind |-> Kind, fam |-> Fam, ck |-> c.case.ck, site |-> c.case.site, key |-> c.case.key, expect |-> ValidIdeal(c.case.t), expect_code |-> c.ok]))
 =============================================================================
